@@ -35,6 +35,7 @@ InitState(n, kind) ==
 
 Init == /\ l = 1 /\ k = 1
         /\ TLCSet(1, 0)
+        /\ (IF "BASE_FILE" \in DOMAIN IOEnv THEN TLCSet(7, JsonDeserialize(IOEnv.BASE_FILE)) ELSE TRUE)      \* kind "given"
         /\ IF Len(Log) = 0 THEN InitState(1, "small") ELSE InitState(Log[1].n, Log[1].kind)
 
 (* successors Merge.tla allows for the logged operation *)
